@@ -975,7 +975,11 @@ def run_relnode_history(base: Path, case: dict):
     log = top / "log.jsonl"
     (top / "relcat.py").write_text(RELCAT.replace("@@NAME@@", repr(rel["cat"]))
                                    .replace("@@ENTRIES@@", repr([[e, k, r] for e, k, r, _ in rel["entries"]])))
-    d_prod, d_cons, d_late = rel["dirs"][0], rel["dirs"][1], "zz_late"
+    d_prod, d_cons, d_late = rel["dirs"][0], rel["dirs"][1], rel.get("late_dir", "zz_late")
+    cand = {e: [top / d / r for d in (d_prod, d_cons, d_late, ".")] for e, k, r, _ in rel["entries"]}
+
+    def stamps():
+        return {e: {str(f): (f.stat().st_mtime_ns, f.stat().st_size) for f in fs if f.exists()} for e, fs in cand.items()}
     for d in (d_prod, d_cons, d_late, "."):            # old files wherever a per-directory resolution would look
         for e, k, r, _ in rel["entries"]:
             f = top / d / r
@@ -989,21 +993,31 @@ def run_relnode_history(base: Path, case: dict):
     builds, logs = [], []
 
     def build(i):
-        r = run_build([str(top)], rel["hashseeds"][i], top / f"res{i}.json")
+        before = stamps()
+        r = run_build([str(top)], rel["hashseeds"][i % len(rel["hashseeds"])], top / f"res{i}.json")
         r["label"] = f"rel{i}"
         builds.append(r)
-        logs.append(_read_log(log, sum(len(x) for x in logs)))
+        lines = _read_log(log, sum(1 for x in logs for rec in x if rec["k"] != "wloc"))
+        after = stamps()
+        for e in cand:          # where the entry's value was WRITTEN in this build (observed on the file system)
+            for f, st in after[e].items():
+                if before[e].get(f) != st:
+                    lines.append({"k": "wloc", "cat": rel["cat"], "entry": cps(e), "path": os.path.normpath(f)})
+        logs.append(lines)
 
     build(0)
     write_module(top / d_late / "task_late.py", log, [], relcons=[[f"rl{i}", e, k] for i, (e, k, _, _) in enumerate(rel["entries"])], top=str(top))
     build(1)
+    for i in range(len(rel["entries"])):      # third session: the same modules; the late dependents must run again
+        (top / d_late / f"out_rl{i}.txt").unlink(missing_ok=True)
+    build(2)
     return builds, logs
 
 
 def run_e2e(ctx, base: Path, case: dict):
     """The histories of one case (main: 3 builds, in-memory catalog: 3 builds, root layout: 2 builds) run side by side; every
     build is a fresh interpreter. Returns (None, builds, logs) with builds[i]["label"] naming history and build number."""
-    jobs = [run_main_history]
+    jobs = [] if case.get("only_relnode") else [run_main_history]
     if case.get("memory"):
         jobs.append(run_memory_history)
     if case.get("layout"):
@@ -1048,9 +1062,9 @@ def check_e2e(ctx, case: dict, builds, logs):
                               f"{sorted(os.path.relpath(p, os.path.commonpath(sorted(ps))) for p in ps)[:3]}", rep, finding=fid)
                 return
     elocs: dict[tuple, set] = {}
-    for i, lines in zip(labels, logs):      # the location of an entry as seen by each task that received its path, per build
-        for rec in lines:                   # (across builds the unchanged code re-resolves a relative node against whichever task
-            if rec["k"] == "eloc":          #  is collected first in that session: observed, reported separately, not judged here)
+    for i, lines in zip(labels, logs):      # the location of an entry per build: as seen by each task that received its path
+        for rec in lines:                   # ("eloc") and where its value was written ("wloc", observed on the file system)
+            if rec["k"] in ("eloc", "wloc"):
                 elocs.setdefault((i, tuple(rec["cat"]), tuple(rec["entry"])), set()).add(rec["path"])
     for (i, c, e), ps in elocs.items():
         if len(ps) > 1:
@@ -1058,6 +1072,23 @@ def check_e2e(ctx, case: dict, builds, logs):
                           f"tasks of different directories, is seen at {len(ps)} locations in build {i}: "
                           f"{sorted(os.path.relpath(p, os.path.commonpath(sorted(ps))) for p in ps)[:3]}", rep, finding=fid)
             return
+    # entry-location-stable: the same (catalog, entry) is at the same place in every session of the history
+    if case.get("relnode"):
+        kinds = {tuple(cps(e)): k for e, k, _, _ in case["relnode"]["entries"]}
+        rl = [i for i in labels if i.startswith("rel")]
+        for a, b in zip(rl, rl[1:]):
+            for (i, c, e), ps in sorted(elocs.items()):
+                qs = elocs.get((b, c, e))
+                if i != a or not qs or len(ps) != 1 or len(qs) != 1 or ps == qs:
+                    continue
+                # F44 (narrow): the entry was registered with a node OBJECT whose path is relative, and the set of task modules
+                # changed between the two sessions (here: between the first and the second build a module is added)
+                f44 = kinds.get(e) in ("pickle", "pathnode") and (a, b) == ("rel0", "rel1")
+                ctx.violation(f"entry-location-unstable: entry ({s_of(c)[:30]!r}, {s_of(e)[:20]!r}) [{kinds.get(e)}] is at "
+                              f"{os.path.relpath(sorted(ps)[0], os.path.commonpath(sorted(ps | qs)))} in session {a} and at "
+                              f"{os.path.relpath(sorted(qs)[0], os.path.commonpath(sorted(ps | qs)))} in session {b}"
+                              + (" (a task module was added in between)" if (a, b) == ("rel0", "rel1") else " (same modules)"),
+                              rep, finding="F44" if f44 and fid is None else fid)
     for i, b in zip(labels, builds):
         if b["crash"] or b["exit_code"] != 0:
             ctx.violation(f"e2e-exit: build {i} of a project whose tasks only pass values through catalog entries ended with "
@@ -1069,7 +1100,7 @@ def check_e2e(ctx, case: dict, builds, logs):
         if i.startswith("mem"):
             last = {k: v for k, v in last.items() if k[0] != tuple(memory["name"])}    # in-memory entries are empty in a new session
         for rec in lines:
-            if rec["k"] in ("loc", "eloc"):
+            if rec["k"] in ("loc", "eloc", "wloc"):
                 continue
             if rec["k"] == "shape":
                 if rec["n"] != rec["want"]:
@@ -1097,14 +1128,14 @@ def check_e2e(ctx, case: dict, builds, logs):
     if case.get("layout"):
         ctx.dist[f"e2e:layout={case['layout']['kind']}"] += 1
     # non-vacuity of the observation: new consumers of builds 1 and 2 must have run
-    want = [n, n, n]
+    want = [] if case.get("only_relnode") else [n, n, n]
     if memory:
         ne = lambda cs: sum(1 for _, _, sl in cs for k, _ in sl if k == "e")   # noqa: E731
         want += [ne(memory["cons"]), ne([memory["cons"][j] for j in memory["redo"]]), ne(memory["cons"] + [memory["late"]])]
     if case.get("layout"):
         want += [2 * len(case["layout"]["entries"]), len(case["layout"]["entries"])]
     if case.get("relnode"):
-        want += [len(case["relnode"]["entries"])] * 2
+        want += [len(case["relnode"]["entries"])] * 3
     if any(got < w for got, w in zip(ncons, want)):
         ctx.violation(f"e2e-missing: consumers that had never run did not run (per build: {ncons}, expected ≥ {want})", rep, finding=fid)
 
@@ -1126,12 +1157,15 @@ def campaign(ctx):
         # ---- inputs
         jobs = []    # (label, project, names, entries, hashseeds)
         other_corpus = []
+        corpus_cases: list = []
         for n, f in enumerate(sorted((common.VERIF / "corpus" / "C20").glob("*.json"))):   # 0 corpus first
             inp = json.loads(f.read_text())["input"]
             if inp.get("kind") in ("paths", "name"):
                 nm = [s_of(x) for x in inp["names"]] if inp["kind"] == "paths" else [s_of(inp["name"])]
                 en = [s_of(e) for e in inp.get("entries", [])] or ["e"]
                 jobs.append((f"corpus{n}", new_project(base, f"corpus{n}"), nm, en, [1, 2]))
+            elif inp.get("kind") == "e2e":
+                corpus_cases.append(inp["case"])       # run together with the generated end-to-end cases
             else:
                 other_corpus.append(inp)
             ctx.dist["corpus"] += 1
@@ -1152,7 +1186,7 @@ def campaign(ctx):
         trace_seeds = [rng.randrange(1, 1 << 16) for _ in range(4)]
         # 3 end to end
         ne = ctx.scale(8, 60)    # quick: one wave of 8 parallel projects
-        cases = [random_e2e(rng, i, f5=(i == ne - 1)) for i in range(ne)]
+        cases = corpus_cases + [random_e2e(rng, i, f5=(i == ne - 1)) for i in range(ne)]
         # ---- the real code, concurrently
         with ThreadPoolExecutor(max_workers=len(jobs) + 1 + min(8, ne)) as ex:
             f_names = [ex.submit(run_names, proj, nm, en, hs) for _, proj, nm, en, hs in jobs]
